@@ -167,7 +167,7 @@ func sectionsKey(doc map[string]interface{}) string {
 func hasKey(m map[string]interface{}, k string) bool { _, ok := m[k]; return ok }
 
 func checkC18(c *hx.Ctx) {
-	c.Rule("(1) patches generated around each structural rule - every violation singly and in pairs on top of a valid patch: id empty / 51 characters / non URL-safe / duplicated (over every pairing of key-entry kinds: type x JWK / base58 material), key type not permitted for a declared purpose, zero or two key-material members (the surplus one also null or empty), service type 31 characters, invalid URI endpoint (single, second of a list, after an object), disabled action, JSON-patch path / from addressing /publicKey or /service in every pointer spelling - plus random mutations of valid patches; oracle: whenever patchvalidator.Validate / ValidateDelta accepts, an independent rule checker finds no violation (and every generated violation is rejected); (2) every accepted delta, and every JSON patch over all six RFC 6902 operations x 34 pointer shapes for path and from x present/absent/null/ill-typed value (exhaustive for single operations, random lists of 1-3), is applied to 3 small documents in crash-isolated workers with a per-call watchdog: must return a document or an error, never panic, crash or hang, and an accepted JSON patch must leave the publicKey and service sections unchanged; non-trivial = rule-violating or RFC 6902 case; distinct = distinct (document, patch list)")
+	c.Rule("(1) patches generated around each structural rule - every violation singly and in pairs on top of a valid patch: id empty / 51 characters / non URL-safe / duplicated (over every pairing of key-entry kinds: type x JWK / base58 material), key type not permitted for a declared purpose, zero or two key-material members (the surplus one also null or empty), service type 31 characters, invalid URI endpoint (single, second of a list, after an object), disabled action, JSON-patch path / from addressing /publicKey or /service in every pointer spelling - rule-conforming deltas whose objects have member names that are prefixes of each other (validation canonicalizes the delta), plus random mutations of valid patches; oracle: whenever patchvalidator.Validate / ValidateDelta accepts, an independent rule checker finds no violation (and every generated violation is rejected); (2) every accepted delta, and every JSON patch over all six RFC 6902 operations x 34 pointer shapes for path and from x present/absent/null/ill-typed value (exhaustive for single operations, random lists of 1-3), is applied to 3 small documents in crash-isolated workers with a per-call watchdog: must return a document or an error, never panic, crash or hang, and an accepted JSON patch must leave the publicKey and service sections unchanged; (3) published operations put straight into the operation store whose correctly signed delta breaks a structural rule: resolution treats the delta as unusable (compared with the reference state machine); non-trivial = rule-violating or RFC 6902 case; distinct = distinct (document, patch list)")
 	c.Assume("the key-type/purpose table and the limits 50/30 are frozen from the statement and the pinned tree; URI validity = net/url.ParseRequestURI; the watchdog (30 s per call, normal calls take < 1 ms) counts as a violation of the termination clause")
 	pool := hx.NewPool(c, "compose", 16, 4*1024*1024, 30*time.Second)
 	defer pool.Close()
@@ -556,6 +556,35 @@ func checkC18(c *hx.Ctx) {
 			}
 		}
 	}
+	// rule-conforming deltas whose objects have member names that are prefixes of each other, share long prefixes, or are
+	// empty / non-ASCII (validation canonicalizes the delta to measure it; creation and long-form resolution canonicalize documents)
+	{
+		withMembers := func(m map[string]interface{}, extra map[string]interface{}) map[string]interface{} {
+			for k, v := range extra {
+				m[k] = v
+			}
+			return m
+		}
+		nameSets := []map[string]interface{}{
+			{"routing": "r", "routingKeys": []interface{}{"k"}},
+			{"a": 1.0, "ab": 2.0, "abc": map[string]interface{}{"x": 1.0, "xy": 2.0}},
+			{"": 0.0, "a": 1.0},
+			{"name": "n", "nameHistory": []interface{}{"a"}, "names": nil},
+			{"é": 1.0, "éé": 2.0, "\U0001F600": 3.0, "\U0001F600x": 4.0},
+		}
+		for _, ns := range nameSets {
+			jobs = append(jobs, job{[]interface{}{patchAddServices(withMembers(goodSvc("sv"), ns))}, "member-names-prefix-of-each-other", "", nil})
+			jobs = append(jobs, job{[]interface{}{patchReplace([]interface{}{goodKey("k9")}, []interface{}{withMembers(goodSvc("sv"), ns)})}, "member-names-prefix-of-each-other", "", nil})
+			jobs = append(jobs, job{[]interface{}{patchJSON(map[string]interface{}{"op": "add", "path": "/profile", "value": ns})}, "member-names-prefix-of-each-other", "", nil})
+			var ops []map[string]interface{}
+			for _, k := range keysSorted(ns) {
+				if k != "" {
+					ops = append(ops, map[string]interface{}{"op": "add", "path": "/" + k, "value": ns[k]})
+				}
+			}
+			jobs = append(jobs, job{[]interface{}{patchJSON(ops...)}, "member-names-prefix-of-each-other", "", nil})
+		}
+	}
 	for _, extra := range []map[string]interface{}{{"op": "bogus", "path": "/a"}, {"path": "/a"}, {"op": nil, "path": "/a"}, {"op": 5.0, "path": "/a"}, {"op": "add"}, {}} {
 		jobs = append(jobs, job{[]interface{}{patchJSON(extra)}, "rfc6902-malformed-op", "", nil})
 	}
@@ -613,6 +642,46 @@ func checkC18(c *hx.Ctx) {
 			}
 		}
 	})
+	// ---- (3) resolution never applies a delta that validation rejects, wherever the operation comes from: published operations
+	// handed straight to the operation store (a store filled by an integrator, operations passed with the resolution request)
+	// whose correctly signed delta breaks a structural rule behave like operations without a usable delta
+	{
+		rr := c.Rng("resolution")
+		u := NewUniverse(rr.Split("u"), ref.SHA256, base, []string{"P-256", "Ed25519"})
+		u.BuildAlphabet(1, 2)
+		cm := func(k *ref.Key) string { return k.Commitment(ref.SHA256) }
+		rpc := hx.NewClient(hx.NewVersion(base, hx.VersionOpts{ParserOpts: hx.StrictResolution()}))
+		nth := 0
+		for _, j := range jobs {
+			if j.must == "" || j.proto != nil || !(strings.HasPrefix(j.class, "key-rule") || strings.HasPrefix(j.class, "service-rule") || j.class == "id-charset" || strings.HasPrefix(j.class, "duplicate-id")) {
+				continue
+			}
+			nth++
+			if nth%9 != 0 && !c.Thorough() {
+				continue
+			}
+			var H []*ref.Op
+			if nth%2 == 0 {
+				bad := u.MkSigned("upd-rule-breaking-delta", "update", u.U[0], "", cm(u.U[1]), j.patches, SignedOpts{})
+				bad.DeltaStatus = ref.DeltaInvalid
+				H = []*ref.Op{Place(u.Ops["C"], 10, 0, "ref0", 0), Place(bad, 20, 1, "ref1", 0), Place(u.Ops["u12"], 30, 0, "ref2", 0), Place(u.Ops["u01"], 40, 2, "ref3", 0)}
+			} else {
+				bad := u.MkSigned("rec-rule-breaking-delta", "recover", u.R[0], cm(u.R[1]), cm(u.U[1]), j.patches, SignedOpts{})
+				bad.DeltaStatus = ref.DeltaInvalid
+				H = []*ref.Op{Place(u.Ops["C"], 10, 0, "ref0", 0), Place(bad, 20, 1, "ref1", 0), Place(u.Ops["u12"], 30, 0, "ref2", 0), Place(u.Ops["r12"], 40, 2, "ref3", 0)}
+			}
+			c.Eval()
+			st, merr := ref.Resolve(H, ref.ResolveOpts{})
+			rm, err := SUTResolve(rpc, u.Suffix, H, nil)
+			if want, got := stKey(st, merr), rmKey(rm, err); want != got {
+				c.Violation(fmt.Sprintf("C18 resolution of a history holding a published operation whose delta breaks a structural rule (%s) differs from the reference (the delta must be treated as unusable): %s\n   model:   %s\n   library: %s", j.must, histString(H), want, got),
+					map[string]interface{}{"patches": j.patches, "history": replayOps(H), "model": want, "library": got})
+				break
+			}
+			c.Count("resolutions_with_rule_breaking_published_delta")
+		}
+		c.Floor("resolutions_with_rule_breaking_published_delta", 20)
+	}
 	c.Set("worker_crashes", pool.Crashes)
 	for _, k := range []string{"rejected:key-rule", "rejected:service-rule", "rejected:key-rule-in-replace", "rejected:service-rule-in-replace", "rejected:duplicate-id", "rejected:duplicate-id-kinds", "rejected:action-enablement", "accepted:action-enablement"} {
 		c.Floor(k, 4)
